@@ -24,6 +24,15 @@ statement, for every live object x:
       same contents now  -> same fingerprint (read-only operations never change it)
       some element now has a different hash() -> different fingerprint (reported only when F1 holds,
       i.e. when it is the fingerprint function itself that cannot see the change)
+
+Family S (string sensitivity): every ordered pair (a, b) of unequal strings from STR_POOL - pairs that
+collide under hand-rolled string hashes (base-31 "Aa"/"BB", "ab"/"bC", "AaAa"/"BBBB", "Aa"+x / "BB"+x; the
+same construction for bases 33, 37, 131, 256, 65599; little-endian polynomials; additive / xor hashes:
+anagrams, "ad"/"bc", "aa"/"bb"; case- / whitespace- / prefix- / length-only hashes) and ordinary pairs.
+b is written over a at one position of a 3-element str vector / of the str column of a 3x2 table through
+four write paths (v[i], v[i:i+1], t.s[i], t[i, 0]), with the fingerprint cached on the object itself or
+taken from a twin.  Whenever Python's hash(a) != hash(b): the fingerprint of the vector, of the column
+and of the table must differ from the one before the write (and, F1, equal that of a rebuilt object).
 """
 import itertools
 
@@ -370,7 +379,116 @@ def _history_evaluate(case):
     return fails
 
 
+# ---- family S: pairs that defeat weak hand-rolled string hashes ------------------------------------
+def _poly_twin(s2, base):
+    """A string != 'A' + s2 with the same big-endian base-`base` polynomial hash: ('A', c) -> ('B', c - base)."""
+    return 'B' + chr(ord(s2) - base)
+
+
+STR_POOL = [
+    # base 31 (Java-style h = 31*h + ord)
+    'Aa', 'BB', 'ab', 'bC', 'AaAa', 'BBBB', 'AaBB', 'BBAa', 'Aax', 'BBx', 'Aa 1', 'BB 1', 'xAa', 'xBB',
+    # same construction, other bases: 33 (djb2), 37, 131, 256, 65599 (sdbm)
+    _poly_twin('a', 33), _poly_twin('a', 37), 'A' + chr(200), _poly_twin(chr(200), 131), 'A' + chr(0x161), _poly_twin(chr(0x161), 256),
+    'A' + chr(65599 + 48), _poly_twin(chr(65599 + 48), 65599),
+    # little-endian polynomial (h = sum ord(c_i) * B**i): the reversed strings
+    'aA', 'Cb',
+    # additive / xor hashes: anagrams and equal sums / equal xors
+    'ba', 'ad', 'bc', 'aa', 'bb',
+    # case-folding, whitespace-stripping, length-only, prefix-only hashes; ordinary strings
+    'AA', 'a ', 'a', 'b', '', 'hello', 'Hello', 'hellp', 'world',
+    'abcdefghijklmnopqrstuvwxyz0', 'abcdefghijklmnopqrstuvwxyz1', 'abcdefghijklm_nopqrstuvwxyz', 'abcdefghijklm-nopqrstuvwxyz',
+]
+assert len(set(STR_POOL)) == len(STR_POOL)
+assert 65 * 31 + 97 == 66 * 31 + 66 and 97 * 31 + 98 == 98 * 31 + 67        # "Aa"/"BB", "ab"/"bC" under base 31
+S_PATHS = ['Vector.setitem-int', 'Vector.setitem-slice', 'Table.column-setitem', 'Table.setitem-cell']
+
+
+def _sens_cases(tier):
+    idx = 0
+    for a in STR_POOL:
+        for b in STR_POOL:
+            if a == b:
+                continue
+            for path in S_PATHS:
+                idx += 1
+                if tier == 'quick':
+                    yield {'sens': [a, b], 'path': path, 'pos': idx % 3, 'cached': bool((idx // 3) % 2)}
+                else:
+                    for pos in range(3):
+                        for cached in (True, False):
+                            yield {'sens': [a, b], 'path': path, 'pos': pos, 'cached': cached}
+
+
+def _sens_evaluate(case):
+    a, b = case['sens']
+    path, i, cached = case['path'], case['pos'], case['cached']
+    base = ['x', 'y', 'z']
+    base[i] = a
+    after = list(base)
+    after[i] = b
+    on_vector = path.startswith('Vector.')
+    stmt = {'Vector.setitem-int': f'v[{i}] = {b!r}', 'Vector.setitem-slice': f'v[{i}:{i + 1}] = [{b!r}]',
+            'Table.column-setitem': f't.s[{i}] = {b!r}', 'Table.setitem-cell': f't[{i}, 0] = {b!r}'}[path]
+    hist = (f"v = Vector({base!r}, name='s'); t = Table({{'s': {base!r}, 'k': [1, 2, 3]}}); "
+            + ('fingerprints taken on v / t / t.s; ' if cached else 'fingerprints taken on twins built the same way; ') + stmt)
+    fails = []
+    try:
+        def build():
+            return Vector(list(base), name='s'), Table({'s': list(base), 'k': [1, 2, 3]})
+        v, t = build()
+        src_v, src_t = (v, t) if cached else build()
+        fp0 = {'vector': src_v.fingerprint(), 'table': src_t.fingerprint(), 'column': src_t.s.fingerprint()}
+    except Exception as e:
+        return [Fail('C16:setup:raised', f'{hist}: {type(e).__name__}: {e}')]
+    try:
+        if path == 'Vector.setitem-int':
+            v[i] = b
+        elif path == 'Vector.setitem-slice':
+            v[i:i + 1] = [b]
+        elif path == 'Table.column-setitem':
+            t.s[i] = b
+        else:
+            t[i, 0] = b
+    except Exception as e:
+        return [Fail(f'C16:{path}:str-write-raised', f'{hist}: {type(e).__name__}: {e}')]
+    objs = [('vector', v)] if on_vector else [('table', t), ('column', t.cols()[0])]
+    differ = hash(a) != hash(b)
+    for kindname, x in objs:
+        try:
+            cont = contents(x)
+            flat = cont if kindname != 'table' else cont[0][1]
+            if flat != after:
+                continue                              # the write did not take: C08's business
+            now = x.fingerprint()
+            fresh = rebuild(x).fingerprint()
+        except Exception as e:
+            fails.append(Fail(f'C16:{path}:{kindname}-fingerprint-raised', f'{hist}: fingerprint() raised {type(e).__name__}: {e}'))
+            continue
+        if now != fresh:
+            fails.append(Fail(f'C16:{path}:{kindname}-fingerprint-stale',
+                              f'{hist}: the {kindname} fingerprint differs from the fingerprint of a freshly built object with the same contents {cont!r}'
+                              + (' (a fingerprint of it had been taken earlier)' if cached else ' (never fingerprinted before)'), fresh, now))
+            continue
+        if differ and now == fp0[kindname]:
+            if (hash(a) - hash(b)) % P61 == 0:
+                fails.append(Fail('C16:fingerprint:mod-p-residue', f'{hist}: hash({a!r}) and hash({b!r}) differ by a multiple of 2**61-1 and the '
+                                  f'{kindname} fingerprint is the same', 'different fingerprint', now))
+            else:
+                who = 'Table.fingerprint' if kindname == 'table' else 'Vector.fingerprint'
+                fails.append(Fail(f'C16:{who}:blind-to-str-change',
+                                  f'{hist}: element {i} changed from {a!r} to {b!r} (hash() {hash(a)} -> {hash(b)}), the {kindname} fingerprint is '
+                                  f'unchanged - also for freshly built objects, i.e. the fingerprint function cannot tell the two strings apart',
+                                  'different fingerprint', now))
+        m = _truthful(x)
+        if m:
+            fails.append(Fail(f'C03:{path}:truthful', f'{hist}: {m}'))
+    return fails
+
+
 def nontrivial(case):
+    if 'sens' in case:
+        return ('sens', tuple(case['sens']), case['path'])
     if 'hist' not in case:
         return ('order', repr(case))
     kinds = [_opname(s, case.get('opn'))[1] for s in case['hist']]
@@ -381,6 +499,7 @@ def nontrivial(case):
 
 def cases(tier, seed):
     yield from _history_cases(tier, seed)
+    yield from _sens_cases(tier)
     # order matters: permutations of unequal elements / columns / rows have different fingerprints
     for p in itertools.permutations([1, 2, 3]):
         for q in itertools.permutations([1, 2, 3]):
@@ -391,6 +510,11 @@ def cases(tier, seed):
 
 
 def evaluate(case):
+    if 'sens' in case:
+        try:
+            return _sens_evaluate(case)
+        except Exception as e:
+            return [Fail('C16:harness:sens:oracle-crash', f'{type(e).__name__}: {e}')]
     if 'order' in case:
         p, q = case['order']
         try:
@@ -427,9 +551,12 @@ if __name__ == '__main__':
               'complex, float->complex, date->datetime, nullable date) through 6 vector and 18 table write paths x cache pre-states x '
               'column/table fingerprint() after the write; family I: every one of the 32 write paths between two table-level '
               'fingerprint() calls with a column-level call (held handle, fresh lookup, last column, all columns) after the write, 4 cache '
-              'pre-states, plus two-write variants; permutation (order) family. Monitor runs only after the last statement (every '
+              'pre-states, plus two-write variants; permutation (order) family; family S: every ordered pair of 42 strings (collisions of base-31/33/37/131/256/65599 '
+              'polynomial, additive, xor, case-/whitespace-/prefix-/length-only hashes, and ordinary pairs) written one over the other through 4 write paths: '
+              'fingerprints of vector, column and table must change whenever hash() differs. Monitor runs only after the last statement (every '
               'prefix is a case) so caches are filled only by the history itself. distinct = distinct (setup, op sequence) with a write',
          bound=lambda tier: {'max_steps_full': 2 if tier == 'quick' else 3, 'max_steps_core': 3 if tier == 'quick' else 4,
                              'setups': len(SETUPS), 'pool': len(POOL), 'max_shape': '3x3', 'ladder_setups': len(LADDER_SETUPS),
-                             'interleaving_two_write_setups': 1 if tier == 'quick' else 3},
+                             'interleaving_two_write_setups': 1 if tier == 'quick' else 3, 'str_pool': len(STR_POOL), 'str_write_paths': S_PATHS,
+                             'str_positions_x_cache_modes': 'rotating' if tier == 'quick' else '3 x 2'},
          nontrivial=nontrivial)
